@@ -90,7 +90,7 @@ CHECKS = {
         "sync.Mutex/channel semantics; fairness assumed for 'eventually seen'.",
    technique="Lean 4 proofs (channel protocol; generic lock-order and guard theorems) + regenerated static facts decided in the kernel + forced schedules and -race stress",
    ref="DESIGN.md section 5 C13, Appendix C"),
-"C11": dict(engine="sig",
+"C11": dict(engine="sig+whip",
    text="Lean 4 theorems over an executable model of rtpconn/webclient.go's message handler (handleClientMessage, handleAction, the join/leave path, token requests) "
         "for every connection state, environment and message: C11_guard (every effect that acts on the group, another member, a token or the media plane is emitted only "
         "when the sender is a member holding the permission the handler names), C11_publish_guard, C11_token_delegation / C11_token_reach_* (a minted or edited token "
@@ -98,10 +98,16 @@ CHECKS = {
         "nothing but errors), revocation on an aliasing heap model of Go slices (C11_revocation_*: a revoked permission is gone from the member and from nobody else); "
         "the pre-fix behaviours (ghost member after a redirect join, edittoken across groups, permission list shared with the stored token) are kept as proved "
         "counterexamples about the pre-fix definitions; the model is tied to the real handler by a differential run of generated multi-client sessions against the real "
-        "webClient objects in-process, with an independent trace oracle that recomputes every member's permissions from the group description",
+        "webClient objects in-process, with an independent trace oracle that recomputes every member's permissions from the group description; WHIP clause: theorems over a "
+        "branch-for-branch model of webserver/whip.go + rtpconn/whipclient.go + the groupHandler dispatch, for all states/requests/entry points (C11_whip_ingest_needs_present, "
+        "_same_token, _refused_leaves_no_member, _other_sessions_untouched, _change_needs_token) and by induction over arbitrary histories of requests and environment events "
+        "(C11_whip_history: every session object was created by a request whose credentials granted 'present' at that moment and still carries its bearer token), tied to the real "
+        "handlers in-process (httptest, real pion offers, real token store) with an independent oracle",
    note=TB + "The websocket transport, JSON decoding and pion are replaced by in-process message injection (shim); group descriptions are generated from a fixed family; the "
         "guard theorem is about the model's handlers, tied by the differential run rather than by a regenerated guard table; the world-level statement that a non-member "
-        "holds no permission in every reachable world is checked by the oracle on every step, not proved in general.",
+        "holds no permission in every reachable world is checked by the oracle on every step, not proved in general. WHIP: ids/obfuscation idealised (fresh counter, bijection); "
+        "stateful tokens only; request body abstracted to what the handlers and pion make of it (validated by the correspondence); sequential requests only; a session created "
+        "without a bearer token is not protected by one (stated: Ex.anonymous_session_is_unprotected).",
    technique="Lean 4 proof + model/implementation differential check + independent trace oracle",
    ref="DESIGN.md section 5 C11"),
  "C14": dict(engine="sig",
@@ -131,13 +137,13 @@ CHECKS = {
    note=TB + "Time is abstract (ages); the monotonicity hypothesis of the age theorem is the server clock. Transport replaced by in-process injection.",
    technique="Lean 4 proof + model/implementation differential check + independent trace oracle",
    ref="DESIGN.md section 5 C15"),
- "C12": dict(engine="codecs+down+fuzzmisc+api+sig",
+ "C12": dict(engine="codecs+down+fuzzmisc+api+sig+whip",
    text="Media part proved in Lean 4: the transcriptions of PacketFlags, RewritePacket, Keyframe (VP8, VP9, AV1 OBU walk, H.264 single/STAP/MTAP/FU), "
         "KeyframeDimensions and of pion's RTP/VP8/VP9 parsers never evaluate an out-of-range index and never change a packet's length, for every byte list and codec "
         "string; HTTP part: C12_api_no_crash for the model of the admin API (every request gets a response; the pre-fix nil dereference is kept as a proved "
         "counterexample about the pre-fix definition); signalling part: C12_run_no_crash for the model of the websocket message handler and action loop (every message "
         "and every queued action of every reachable world yields effects, never a crash; the pre-fix crashes P10/P12/P18/offer-without-group are kept as proved counterexamples "
-        "about the pre-fix definitions); the real functions/handlers are run under recover() on type-directed and malformed inputs on every check and "
+        "about the pre-fix definitions); WHIP handlers: C12_whip_no_crash; the real functions/handlers are run under recover() on type-directed and malformed inputs on every check and "
         "any panic is reported with the input",
    note=TB + "JSON decoding, websocket framing, pion's SDP/RTCP parsers are exercised only "
         "by the harness (exploration, not proof).",
